@@ -144,7 +144,7 @@ fn directed_patterns(rng: &mut Rng) -> Vec<RefPattern> {
 }
 
 pub fn c18_case(rng: &mut Rng, i: u64, st: &mut Stats) -> CaseOutcome {
-    let p = GenParams::default();
+    let p = GenParams::varied(rng);
     let hostile_names = rng.chance(1, 4);
     let mut cfg = gen_multi_mode(rng, &p, 35, 4);
     if rng.chance(1, 3) {
